@@ -67,7 +67,7 @@ class FrameRig:
         self.b.sendall(bs)
         return ';'.join(self._pump()) or '-'
 
-    def feed_racing_cancel(self, bs: bytes) -> str:
+    def feed_racing_cancel(self, bs: bytes, delay: int = 0) -> str:
         """The bytes arrive in the very event-loop iteration in which the caller's timeout fires:
         the socket future is completed first, then the task is cancelled (timer callbacks run
         after I/O callbacks), as `wait_for(read_message(), 0.1)` does when both coincide."""
@@ -78,8 +78,18 @@ class FrameRig:
             self._spin()
         task = self.task
         self.b.sendall(bs)
-        self.loop.call_later(0, task.cancel)
-        self._spin()
+
+        # `delay` event-loop iterations pass between the arrival of the bytes and the cancellation:
+        # 0 = the very iteration (see above); 1.. = the receive has completed, the reader coroutine
+        # may or may not have been resumed with its result yet
+        def later(n: int) -> None:
+            if n <= 0:
+                task.cancel()
+            else:
+                self.loop.call_soon(later, n - 1)
+
+        self.loop.call_later(0, later, delay)
+        self._spin(4 + delay)
         if task.done() and not task.cancelled():
             # the read completed before the cancellation took effect: deliver what it returned
             length, msg, header, body, err = task.result()
